@@ -120,4 +120,10 @@ theorem transitions_smpState : Facts.transitions_smpState = [("smpStateBase.rece
   ("smpStateExpect3.receiveMessage3", ["c.abortStateMachineAndNotifyCheated()", "sendSMPAbortAndRestartStateMachine()", "smpStateExpect1{}"]),
   ("smpStateExpect4.receiveMessage4", ["c.abortStateMachineAndNotifyCheated()", "sendSMPAbortAndRestartStateMachine()", "smpStateExpect1{}"])] := by decide
 
+
+/-- every package-level variable whose initial value is produced by a call, with the function called:
+    conversions of literals, error values, big-number constants, reflection type tokens — no hash
+    instance, no buffer with spare capacity, no cache that conversations would share (C20) -/
+theorem pkg_vars_initialised_by_call : Facts.pkgVarsInitialisedByCall = ["defaultResentPrefix=[]byte", "dsaKeyTypeValue=uint16", "errCannotSendUnencrypted=newOtrConflictError", "errCantAuthenticateWithoutEncryption=newOtrError", "errCorruptEncryptedSignature=newOtrError", "errInvalidOTRMessage=newOtrError", "errInvalidVersion=newOtrError", "errMessageNotInPrivate=newOtrError", "errNotWaitingForSMPSecret=newOtrError", "errReceivedMessageForOtherInstance=newOtrError", "errShortRandomRead=newOtrError", "errUnsupportedOTRVersion=newOtrError", "errWrongProtocolVersion=newOtrError", "errorMarker=[]byte", "int32SliceType=reflect.SliceOf", "int32Type=reflect.ValueOf().Type", "int8SliceType=reflect.SliceOf", "int8Type=reflect.ValueOf().Type", "intSliceType=reflect.SliceOf", "intType=reflect.ValueOf().Type", "msgMarker=[]byte", "otrv2FragmentationPrefix=[]byte", "otrv3FragmentationPrefix=[]byte", "queryMarker=[]byte", "tlvHandlers=make", "uint32Array60Type=reflect.ArrayOf", "uint32SliceType=reflect.SliceOf", "uint32Type=reflect.ValueOf().Type", "uint8SliceType=reflect.SliceOf", "uint8Type=reflect.ValueOf().Type", "whitespaceTagHeader=convertToWhitespace"] := by decide
+
 end Otr.FactsOk
